@@ -82,7 +82,18 @@ def run_scenario(sc):
         argv += [x["orig"] for x in files]
         env = dict(os.environ, TMPDIR=os.path.join(root, "tmp"), NO_COLOR="1")
         env.pop("SCRUT_VERIF_TRACE", None)
-        p = subprocess.run(argv, cwd=root, env=env, stdin=subprocess.DEVNULL, stdout=subprocess.PIPE, stderr=subprocess.PIPE, timeout=120)
+        # step events of hook H5 (update.rs), only for the update run itself
+        tpath = os.path.join(root, "trace.ndjson")
+        p = subprocess.run(argv, cwd=root, env=dict(env, SCRUT_VERIF_TRACE=tpath), stdin=subprocess.DEVNULL, stdout=subprocess.PIPE, stderr=subprocess.PIPE, timeout=120)
+        events = []
+        if os.path.exists(tpath):
+            for line in open(tpath, errors="replace"):
+                if '"ev":"Upd' in line:
+                    try:
+                        e = json.loads(line)
+                        events.append({k: v for k, v in e.items() if k not in ("seq", "pid", "path", "target")})
+                    except ValueError:
+                        pass
         out = p.stdout.decode("utf-8", "replace")
         m = SUMMARY.search(out)
         fs, written_pass, detail = [], True, ""
@@ -117,11 +128,11 @@ def run_scenario(sc):
             written_pass, detail = False, "summary total differs from the sum of its parts"
         return {"ev": "Load", "id": sc["id"], "docs": sc["docs"], "flags": fl, "written_pass": written_pass,
                 "obs": {"fs": fs, "counts": counts, "status": status}, "has_summary": bool(m), "exit": p.returncode,
-                "detail": detail, "stdout": out[-400:], "stderr": p.stderr.decode("utf-8", "replace")[-400:]}
+                "detail": detail, "stdout": out[-400:], "stderr": p.stderr.decode("utf-8", "replace")[-400:], "events": events}
     except subprocess.TimeoutExpired:
         return {"ev": "Load", "id": sc["id"], "docs": sc["docs"], "flags": sc["flags"], "written_pass": False,
                 "obs": {"fs": [{"orig": "original", "new": "absent", "conv": "absent"} for _ in sc["docs"]], "counts": {"updated": 0, "skipped": 0, "unchanged": 0}, "status": "error"},
-                "has_summary": False, "exit": -1, "detail": "scrut update hung", "stdout": "", "stderr": ""}
+                "has_summary": False, "exit": -1, "detail": "scrut update hung", "stdout": "", "stderr": "", "events": []}
     finally:
         shutil.rmtree(root, ignore_errors=True)
 
@@ -173,5 +184,20 @@ def stage(prop, tier, work, V, cov, s, replay_body=None):
     for _n, rid in printed["DRIFT"]:
         r = byid[rid]
         V.add_drift(f"update command: the machine of specs/UpdateCommand.tla predicts a different final state for {shape(r)}: observed {json.dumps(r['obs'])[:300]} exit={r['exit']}")
+    # ---- step level: hook events of every run against the actions of the machine
+    steps = []
+    for r in records:
+        steps.append({"ev": "Scenario", "docs": r["docs"], "flags": r["flags"]})
+        steps.extend(r["events"])
+    spath = os.path.join(work, "ucmd_steps.ndjson")
+    write_ndjson(spath, steps)
+    rs_ = tlc("UpdateCommandStepTrace", "UpdateCommandStepTrace.cfg", work, workers=1, env={"TRACE": spath}, depth_first=True, timeout=1200,
+              line_filter=lambda l: l.startswith("<<") or l.startswith("Error") or "violated" in l)
+    accepted = bool(rs_.printed("ACCEPTED"))
+    cov["update_command_step_events"] = len(steps)
+    cov["update_command_step_trace_accepted"] = accepted
+    if not accepted:
+        dr = rs_.printed("DRIFT")
+        V.add_drift(f"update command step trace rejected at event {dr[0][0] if dr else '?'} of {len(steps)}: {str(dr[0][1])[:200] if dr else rs_.error}")
     cov["update_command_runs_validated"] = validated
     return validated
